@@ -756,7 +756,13 @@ def jobs(tier):
 
     def rg(d):
         # week forms with expanded years: mod-7 arithmetic over six decimal digits is slow in z3
-        return {"dX0": (0, 0), "dX1": (0, 0), "dX2": (0, 0), "dCC0": (1, 2), "dCC1": (0, 1)} if ("W" in d and "X" in d) else None
+        # (and over four digits it still brings z3 to its per-query time limit now and then, depending on the
+        # seed): week forms are decoded for the years 2000-2099; week arithmetic for every year is C03's subject
+        if "W" in d and "X" in d:
+            return {"dX0": (0, 0), "dX1": (0, 0), "dX2": (0, 0), "dCC0": (2, 2), "dCC1": (0, 0)}
+        if "W" in d:
+            return {"dCC0": (2, 2), "dCC1": (0, 0)}
+        return None
     for fmt in ("basic", "extended"):
         t = T[fmt]
         full_t = t["time"][0]
@@ -834,7 +840,7 @@ INFO = {
                    "the period start; str(parse(s, dump_as_parsed=True)) == s up to trailing zeros of a decimal. Basic-only "
                    "parsers and basic/extended mixing are checked on one sample text per form (concrete).",
     "bounds": {"quick": {"forms": "all 12 complete date forms x the hhmmss/hh:mm:ss form x all zone spellings; every other time form (incl. decimals ,5 / .5) with no zone and Z; the decimal forms also with the fractions ,000001 and ,00005 on the first calendar form; hh and hhmm forms with every zone; all reduced date forms; 6 parser configurations x 6 forms; 3 other calendar modes x 3 forms",
-                         "digits": "decoding: every digit symbolic, restricted to valid assignments (years 0000-9999, +-000000..999999; week forms with expanded years: +-001000..+-002199 only); accepted<=>valid: the date tokens (00-99 / 000-999 incl. invalid values) or the time and zone tokens symbolic with the other tokens fixed", "excluded": "negative zero: '-000000' years and '-00:00' offsets (their canonical text is '+...')", "decimals": "concrete fraction digits 5, 25"},
+                         "digits": "decoding: every digit symbolic, restricted to valid assignments (years 0000-9999, +-000000..999999; week forms: 2000-2099 and +-002000..+-002099 only); accepted<=>valid: the date tokens (00-99 / 000-999 incl. invalid values) or the time and zone tokens symbolic with the other tokens fixed", "excluded": "negative zero: '-000000' years and '-00:00' offsets (their canonical text is '+...')", "decimals": "concrete fraction digits 5, 25"},
                "thorough": {"forms": "the full date x time x zone cross product", "decimals": "5, 25, 125, 0, 50, 000001"}},
     "outside": ["truncated forms combined with every time form (quick: the hh[:]mm[:]ss and hh forms and the truncated time forms)",
                 "decimal fractions with symbolic or non-dyadic digits (floating point)", "strings that are not instances of a documented form (C09 text clause)",
